@@ -16,23 +16,23 @@ TABLE = {
     # name: (alphabet, prefix, suffix, quick len, thorough len)
     "full": (FULL, "PNone", "PNone", 3, 4),
     "exec": (["{", "}", "(", ")", ":", "$", "n1", "int", "...", "on", "@", "query", "fragment"], "PNone", "PNone", 4, 5),
-    "tsys": (["type", "n1", "{", "}", ":", "(", ")", "=", "@", "extend", "schema", "query", "[", "]", "!", "implements", "&", "str"], "PNone", "PNone", 3, 5),
+    "tsys": (["type", "n1", "{", "}", ":", "(", ")", "=", "@", "extend", "schema", "query", "[", "]", "!", "implements", "&", "str"], "PNone", "PNone", 3, 4),
     "args": (["n1", ":", "int", "[", "]", "{", "}", "$", "str", "true"], "PArgs", "SArgs", 4, 6),
-    "fields": (["n1", ":", "(", ")", "[", "]", "!", "=", "int", "@", "str"], "PFields", "SBrace", 4, 6),
-    "vars": (["$", "n1", ":", "[", "]", "!", "=", "int", "@", "{", "}"], "PVars", "SVars", 4, 6),
-    "dirdef": (["on", "|", "FIELD", "OBJECT", "repeatable", "(", ")", "n1", ":", "str", "@"], "PDirective", "PNone", 4, 6),
-    "extend": (["type", "interface", "union", "enum", "input", "scalar", "schema", "n1", "@", "{", "}", "=", "|", "&", "implements", ":", "query"], "PExtend", "PNone", 3, 5),
+    "fields": (["n1", ":", "(", ")", "[", "]", "!", "=", "int", "@", "str"], "PFields", "SBrace", 4, 5),
+    "vars": (["$", "n1", ":", "[", "]", "!", "=", "int", "@", "{", "}"], "PVars", "SVars", 4, 5),
+    "dirdef": (["on", "|", "FIELD", "OBJECT", "repeatable", "(", ")", "n1", ":", "str", "@"], "PDirective", "PNone", 4, 5),
+    "extend": (["type", "interface", "union", "enum", "input", "scalar", "schema", "n1", "@", "{", "}", "=", "|", "&", "implements", ":", "query"], "PExtend", "PNone", 3, 4),
     "enum": (["n1", "true", "null", "@", "str", "(", ")", ":", "int", "}"], "PEnum", "SBrace", 4, 6),
     "union": (["=", "|", "n1", "@", "(", ")", ":", "int", "type"], "PUnion", "PNone", 4, 6),
-    "input": (["n1", ":", "[", "]", "!", "=", "int", "@", "str", "{", "}"], "PInput", "SBrace", 4, 6),
+    "input": (["n1", ":", "[", "]", "!", "=", "int", "@", "str", "{", "}"], "PInput", "SBrace", 4, 5),
     "sel": (["n1", ":", "...", "on", "@", "{", "}", "(", ")", "int"], "PSel", "SBrace", 4, 6),
-    "schema": (["@", "n1", "{", "}", "query", "mutation", ":", "(", ")", "int", "str"], "PSchema", "PNone", 4, 6),
+    "schema": (["@", "n1", "{", "}", "query", "mutation", ":", "(", ")", "int", "str"], "PSchema", "PNone", 4, 5),
     "c07type": (["n1", "[", "]", "!", "{", "}", ":", "int"], "PNone", "PNone", 5, 6),
     "c07fs": (["n1", "{", "}", ":", "(", ")", "int", "...", "on", "@"], "PNone", "PNone", 4, 5),
     "items": (["{", "}", "n1", ":", "[", "]", "!", "bad", "uni", "comma", "comment", "str", "...", "$", "(", "type"], "PNone", "PNone", 3, 4),
     "extschema": (["@", "n1", "{", "}", "query", ":", "mutation", "(", ")", "int"], "PExtSchema", "PNone", 4, 6),
     "cvardir": (["n1", ":", "$", "int", "[", "]", "{", "}", "str"], "PVarDirArg", "SVarDirArg", 4, 6),
-    "cvardef": (["n1", ":", "$", "int", "[", "]", "{", "}", "@", "(", ")"], "PVarDefault", "SVars", 4, 6),
+    "cvardef": (["n1", ":", "$", "int", "[", "]", "{", "}", "@", "(", ")"], "PVarDefault", "SVars", 4, 5),
     "ctypedir": (["n1", ":", "$", "int", "[", "]", "{", "}", "str"], "PTypeDirArg", "STypeDirArg", 4, 6),
     "cargdef": (["n1", ":", "$", "int", "[", "]", "{", "}", "@", "str"], "PArgDefault", "SArgDefault", 4, 6),
     "frag": (["n1", "on", "@", "{", "}", "...", "(", ")", ":"], "PFrag", "PNone", 4, 6),
